@@ -164,7 +164,12 @@ class Point:
             y = s * (self.x - x) - self.y
             return self.__class__(x, y, self.a, self.b)
 
-        # Case 3: self.x == other.x, self.y == other.y
+        # Case 3: self.x == other.x, self.y == other.y == 0
+        # the tangent is vertical, result is point at infinity
+        if self.y == 0 * self.x:
+            return self.__class__(None, None, self.a, self.b)
+
+        # Case 4: self.x == other.x, self.y == other.y
         else:
             # Formula (x3,y3)=(x1,y1)+(x1,y1)
             # s=(3*x1**2+a)/(2*y1)
